@@ -56,9 +56,12 @@ def save_meta(d, m):
 def demo_pkg(demo_path, demo_dir):
     if demo_dir:
         return demo_dir
-    first = open(demo_path).readline()
-    m = re.search(r"([A-Za-z0-9_./-]+/[A-Za-z0-9_./-]*|obfs4proxy)\s*$", first.strip().rstrip("/").replace("`", ""))
-    return m.group(1).strip("/") if m else None
+    head = "".join(open(demo_path).readlines()[:6])
+    for cand in re.findall(r"((?:transports|common|internal|obfs4proxy)[A-Za-z0-9_/.-]*)", head):
+        cand = cand.strip("/.")
+        if os.path.isdir(os.path.join(REPO, cand)):
+            return cand
+    return None
 
 
 def cmd_import(name, prop, src, demo_dir):
